@@ -286,4 +286,106 @@ example : Spec.KeySchedule.seqNum .dtlcp 1 (2 ^ 48) = Spec.KeySchedule.seqNum .d
 example : incSeq (List.replicate 8 255) = none := by decide
 example : incSeq [0, 0, 0, 0, 0, 0, 0, 255] = some [0, 0, 0, 0, 0, 0, 1, 0] := by decide
 
+/-! ### what is authenticated -/
+
+@[simp] theorem ofNat_mod (x : Nat) : UInt8.ofNat (x % 256) = UInt8.ofNat x := by
+  apply UInt8.toNat_inj.mp; simp
+
+theorem len16_eq (n : Nat) : len16 n = be 2 n := by
+  simp [len16, be]
+
+theorem be1 (n : Nat) : be 1 n = [UInt8.ofNat n] := by simp [be]
+
+/-- For the header `writeRecordLocked` builds and the sequence number it installs, the bytes the
+model feeds to the AEAD as additional data and to the HMAC are exactly the standard's
+seq_num ‖ type ‖ version ‖ length (‖ content): the 64-bit sequence number (DTLCP: epoch ‖ 48-bit
+sequence number, which is also what `setWriteSeq` writes and what the 13-byte header carries),
+type, version and plaintext length are all covered, for both stacks, any field values. -/
+theorem C04_ad_covers (st : Stack) (h : Half) (typ ver epoch seq : Nat) (payload explicit : Bytes) :
+    let S := srcOf st
+    let w : WriteSide := ⟨h, epoch, seq⟩
+    let hdr := buildHeader st w typ ver payload.length
+    let hcseq := Spec.KeySchedule.seqNum (specStack st) epoch seq
+    hdr = Spec.KeySchedule.header (specStack st) typ ver epoch seq payload.length ∧
+    adEncrypt S st hcseq (hdr ++ explicit) payload
+      = Spec.KeySchedule.additionalData (specStack st) typ ver epoch seq payload.length ∧
+    hcseq ++ macHeader S st (hdr ++ explicit) ++ payload
+      = Spec.KeySchedule.macInput (specStack st) typ ver epoch seq payload ∧
+    (st = .dtlcp → (setWriteSeq w).out.seq = hcseq) := by
+  cases st
+  · simp [srcOf, srcTlcp, Facts.tlcp.recordHeaderLen, buildHeader, adEncrypt, macHeader, specStack,
+      Spec.KeySchedule.header, Spec.KeySchedule.additionalData, Spec.KeySchedule.macInput,
+      Spec.KeySchedule.pseudoHeader, Spec.KeySchedule.seqNum, len16_eq, be1]
+    simp [be]
+  · simp [srcOf, srcDtlcp, Facts.dtlcp.recordHeaderLen, buildHeader, adEncrypt, macHeader, specStack, setWriteSeq,
+      Spec.KeySchedule.header, Spec.KeySchedule.additionalData, Spec.KeySchedule.macInput,
+      Spec.KeySchedule.pseudoHeader, Spec.KeySchedule.seqNum, len16_eq, be1]
+    simp [be]
+
+
+/-! ### round trip -/
+
+structure Laws (P : Prims) : Prop where
+  hmac_len : ∀ k m, (P.hmac k m).length = P.hLen
+  enc_len : ∀ k b, b.length = 16 → (P.enc k b).length = 16
+  dec_enc : ∀ k b, b.length = 16 → P.dec k (P.enc k b) = b
+  open_seal : ∀ k n ad p, P.aeadOpen k n ad (P.aeadSeal k n ad p) = some p
+  seal_len : ∀ k n ad p, (P.aeadSeal k n ad p).length = p.length + P.tagLen
+
+theorem len16_length (n : Nat) : (len16 n).length = 2 := rfl
+
+/-- shape of the record after `setLen`, for a header of the right length -/
+theorem setLen_shape (S : Src) (hdr x : Bytes) (n : Nat) (hh : hdr.length = S.recordHeaderLen) :
+    setLen S (hdr ++ x) n = hdr.take (S.recordHeaderLen - 2) ++ len16 n ++ x := by
+  unfold setLen
+  rw [List.take_append_of_le_length (by omega), List.drop_append_of_le_length (by omega),
+    List.drop_of_length_le (by omega)]
+  simp
+
+theorem drop_shape (hl : Nat) (hdr x : Bytes) (n : Nat) (hh : hdr.length = hl) (h2 : 2 ≤ hl) :
+    (hdr.take (hl - 2) ++ len16 n ++ x).drop hl = x := by
+  have : (hdr.take (hl - 2) ++ len16 n).length = hl := by
+    simp [List.length_take, len16_length]; omega
+  rw [List.drop_append_of_le_length (by omega), List.drop_of_length_le (by omega)]; simp
+
+theorem roundtrip_aead_tlcp (P : Prims) (L : Laws P) (k : DirKeys) (next : Option Cipher) (seq hdr payload rand : Bytes)
+    (hseq : seq.length = 8) (hhdr : hdr.length = 5) (hlen : hdr.drop 3 = len16 payload.length) :
+    match encrypt P srcTlcp .tlcp ⟨some (.aead k), next, seq⟩ hdr payload rand with
+    | .ok (rec, h') => decrypt P srcTlcp .tlcp ⟨some (.aead k), next, seq⟩ rec = .ok (payload, h')
+    | .panic => incSeq seq = none
+    | .alert _ => False := by
+  have hS : srcTlcp.recordHeaderLen = 5 := rfl
+  have hen : explicitNonceLen srcTlcp (some (.aead k)) = 8 := rfl
+  have h8 : seq.take 8 = seq := List.take_of_length_le (by omega)
+  have hne : (seq.length == 0) = false := by simp [hseq]
+  simp only [encrypt, hen, h8, hne]
+  simp only [Bool.false_eq_true, if_false]
+  generalize hct : P.aeadSeal k.key (prefixNonce srcTlcp k.iv seq) (adEncrypt srcTlcp .tlcp seq (hdr ++ seq) payload) payload = ct
+  have hctl : ct.length = payload.length + P.tagLen := by rw [← hct, L.seal_len]
+  rw [List.append_assoc, setLen_shape srcTlcp hdr (seq ++ ct) _ (by rw [hhdr]; rfl)]
+  cases hi : incSeq seq with
+  | none => simp
+  | some s' =>
+    simp only []
+    unfold decrypt
+    simp only [hS, hen]
+    rw [drop_shape 5 hdr (seq ++ ct) _ hhdr (by omega)]
+    have e1 : (seq ++ ct).take 8 = seq := by rw [List.take_append_of_le_length (by omega), h8]
+    have e2 : (seq ++ ct).drop 8 = ct := by rw [List.drop_append_of_le_length (by omega), List.drop_of_length_le (by omega)]; simp
+    have e3 : ¬ (seq ++ ct).length < 8 := by simp; omega
+    have e4 : ¬ ct.length < P.tagLen := by omega
+    simp only [e1, e2, e3, e4, if_false, hne, Bool.false_eq_true, hi]
+    have e5 : ct.length - P.tagLen = payload.length := by omega
+    have e6 : (hdr.take (5 - 2) ++ len16 (List.length (hdr ++ (seq ++ ct)) - 5) ++ (seq ++ ct)).take 3 = hdr.take 3 := by
+      have hl3 : (hdr.take (5 - 2)).length = 3 := by simp [List.length_take, hhdr]
+      rw [List.append_assoc, List.take_append_of_le_length (by omega)]
+      simp [List.take_take]
+    have e7 : seq ++ hdr.take 3 ++ len16 payload.length = adEncrypt srcTlcp .tlcp seq (hdr ++ seq) payload := by
+      have a1 : (hdr ++ seq).take 5 = hdr := by
+        rw [List.take_append_of_le_length (by omega)]; exact List.take_of_length_le (by omega)
+      simp only [adEncrypt, hS]
+      rw [a1, ← hlen, List.append_assoc, List.take_append_drop]
+    rw [e5, e6, e7, ← hct, L.open_seal]
+
+
 end Gotlcp.Props.C04
